@@ -4,10 +4,16 @@
   compute the hand model `Model.linearHash` of Model/Sponge.lean, hence (Lemmas/SpongeL.lean) the rate-8 capacity-4 sponge.
 
   Shape of the argument
-    * `lh_seq_step_generic`, `lh_seq_generic`, `lh_avx_step_generic`, `lh_avx_generic` (by unfolding only): both generated
-      functions are ONE text (`lhStepG`, `lhGenG`), instantiated with the translated permutation they call
+    * `lh_seq_generic`, `lh_avx_generic`, `lh512_generic`: the generated functions EQUAL the reference texts `lhGenG`,
+      `lh512GenG` (kept here, not regenerated) instantiated with the translated permutation they call
       (`Pos_hash_full_result_seq_al_state_input` resp. `Pos_hash_full_result_al_state_input`: the call pattern
-      `hash_full_result*(state, state)`, output aliased with input).  A change of either C++ function breaks these lemmas.
+      `hash_full_result*(state, state)`, output aliased with input).  The equality is proved EXTENSIONALLY
+      (Lemmas/BridgeEquiv.lean, `gen_equiv`: parallel walk through the two programs, words compared in Z/2^64, regions
+      compared word by word, conditions compared over Nat), not by `rfl`: renamed locals, hoisted sub-expressions,
+      reordered independent copies / fills, dead branches, `a < b` vs `b > a` do not break it.  A loop that counts the
+      absorbed elements UP instead of the remaining ones DOWN is accepted too (`lh_countup`: the two loops are related by
+      `absorbed = size - remaining` under the invariant `remaining ≤ size`, `GenEquiv.whileM_map`).  A change of what a C++
+      function computes breaks these lemmas.
     * `lhGenG_spec`: for every region function `P` that acts on the first twelve words as a list function `perm`
       (`hP : ∀ s, toList (P s) 12 = perm (toList s 12)`), every input region, every 64-bit size and every fuel > size:
       the generated function returns, its four output words are `linearHash perm (the first size words of the input)`, and
@@ -20,7 +26,11 @@
 import GoldilocksVerif.Gen.LinearHashGen
 import GoldilocksVerif.Lemmas.SpongeL
 import GoldilocksVerif.Lemmas.BridgeBlocks
+import GoldilocksVerif.Lemmas.BridgeEquiv
 import Mathlib.Tactic.SplitIfs
+
+set_option linter.unusedSimpArgs false
+set_option linter.unusedTactic false
 
 namespace GoldilocksVerif
 open Model Gen.LinearHashGen
@@ -59,27 +69,63 @@ def lhGenG (P : Region → Region) (fuel : Nat) (output input : Region) (size : 
     let output := if (decide (size > 0#64)) then (Region.copyN output state 4) else (Region.zeroN output 4)
     some output
 
-theorem lh_seq_step_generic (input : Region) (size : BitVec 64) :
-    Pos_linear_hash_seq_loop1 input size = lhStepG Pos_hash_full_result_seq_al_state_input input size := by
-  funext st
-  unfold Pos_linear_hash_seq_loop1 lhStepG
-  rfl
+/-! ### generated function = reference text -/
+
+/-- the count-down loop never has more left than `size` -/
+theorem lhStepG_inv (P : Region → Region) (input : Region) (size : BitVec 64) (t : Region × BitVec 64) (b : Bool)
+    (t' : Region × BitVec 64) (ht : t.2.toNat ≤ size.toNat) (h : lhStepG P input size t = some (b, t')) :
+    t'.2.toNat ≤ size.toNat := by
+  unfold lhStepG at h
+  dsimp only at h
+  split_ifs at h <;> cases h <;> dsimp only <;> ge_cond_norm <;> bv_omega
+
+/-- a loop `F` whose state is `(state, absorbed)` with `absorbed` counted UP from 0, against a reference loop `G` whose state
+    is `(state, remaining)` with `remaining` counted DOWN from `size` and never above `size` (`hG`): if one step of `F` from
+    `(s, size - r)` is the image of one step of `G` from `(s, r)`, the two loops (and what follows them) agree -/
+theorem bind_whileM_countup {size : BitVec 64}
+    {F G : Region × BitVec 64 → Option (Bool × (Region × BitVec 64))} {K K' : Region × BitVec 64 → Option Region} {fuel : Nat}
+    (hG : ∀ (t : Region × BitVec 64) (b : Bool) (t' : Region × BitVec 64), t.2.toNat ≤ size.toNat → G t = some (b, t') →
+      t'.2.toNat ≤ size.toNat)
+    (hstep : ∀ t : Region × BitVec 64, t.2.toNat ≤ size.toNat →
+      F (t.1, size - t.2) = (G t).map (fun p => (p.1, (p.2.1, size - p.2.2))))
+    (hK : ∀ t : Region × BitVec 64, K (t.1, size - t.2) = K' t) :
+    (Loop.whileM F fuel (Region.zero, 0#64)).bind K = (Loop.whileM G fuel (Region.zero, size)).bind K' := by
+  have h0 : ((Region.zero, 0#64) : Region × BitVec 64) =
+      (fun t : Region × BitVec 64 => (t.1, size - t.2)) (Region.zero, size) := by
+    show (Region.zero, 0#64) = (Region.zero, size - size)
+    rw [BitVec.sub_self]
+  rw [h0, GenEquiv.whileM_map F G (fun t => (t.1, size - t.2)) (fun t => t.2.toNat ≤ size.toNat)
+    hstep hG fuel (Region.zero, size) (Nat.le_refl _), GenEquiv.optBind_map]
+  exact GenEquiv.optBind_congr rfl hK
+
+/-- the count-up form: the pass-through branch as usual, the loop through `bind_whileM_countup` (`inv` = the invariant lemma
+    of the reference loop, `stepG` = the reference loop body, still folded on the right-hand side) -/
+macro "lh_countup " inv:term ", " stepG:ident : tactic =>
+  `(tactic| focus
+      (dsimp only
+       split_ifs <;> first
+         | ge_contra
+         | (refine bind_whileM_countup (fun t b t' ht h => $inv t b t' ht h) (fun t ht => ?_) (fun t => ?_)
+            · delta $stepG
+              gen_equiv
+            · gen_equiv)
+         | gen_equiv))
 
 theorem lh_seq_generic (fuel : Nat) (output input : Region) (size : BitVec 64) :
     Pos_linear_hash_seq fuel output input size = lhGenG Pos_hash_full_result_seq_al_state_input fuel output input size := by
-  unfold Pos_linear_hash_seq lhGenG
-  rw [lh_seq_step_generic]
-
-theorem lh_avx_step_generic (input : Region) (size : BitVec 64) :
-    Pos_linear_hash_loop1 input size = lhStepG Pos_hash_full_result_al_state_input input size := by
-  funext st
-  unfold Pos_linear_hash_loop1 lhStepG
-  rfl
+  delta lhGenG
+  delta_prefix "Gen.LinearHashGen.Pos_linear_hash_seq"
+  first
+  | (delta lhStepG; gen_equiv)
+  | lh_countup (lhStepG_inv Pos_hash_full_result_seq_al_state_input input size), lhStepG
 
 theorem lh_avx_generic (fuel : Nat) (output input : Region) (size : BitVec 64) :
     Pos_linear_hash fuel output input size = lhGenG Pos_hash_full_result_al_state_input fuel output input size := by
-  unfold Pos_linear_hash lhGenG
-  rw [lh_avx_step_generic]
+  delta lhGenG
+  delta_prefix "Gen.LinearHashGen.Pos_linear_hash"
+  first
+  | (delta lhStepG; gen_equiv)
+  | lh_countup (lhStepG_inv Pos_hash_full_result_al_state_input input size), lhStepG
 
 /-! ### one block -/
 
@@ -252,17 +298,22 @@ def lh512GenG (P2 : Region → Region) (fuel : Nat) (output input : Region) (siz
     let output := if (decide (size > 0#64)) then (Region.copyN output state 8) else (Region.zeroN output 8)
     some output
 
-theorem lh512_step_generic (input : Region) (size : BitVec 64) :
-    Pos_linear_hash_avx512_loop1 input size = lh512StepG Pos_hash_full_result_avx512_al_state_input input size := by
-  funext st
-  unfold Pos_linear_hash_avx512_loop1 lh512StepG
-  rfl
+theorem lh512StepG_inv (P2 : Region → Region) (input : Region) (size : BitVec 64) (t : Region × BitVec 64) (b : Bool)
+    (t' : Region × BitVec 64) (ht : t.2.toNat ≤ size.toNat) (h : lh512StepG P2 input size t = some (b, t')) :
+    t'.2.toNat ≤ size.toNat := by
+  unfold lh512StepG at h
+  dsimp only at h
+  split_ifs at h <;> cases h <;> dsimp only <;> ge_cond_norm <;> bv_omega
 
+set_option maxHeartbeats 1000000 in
 theorem lh512_generic (fuel : Nat) (output input : Region) (size : BitVec 64) :
     Pos_linear_hash_avx512 fuel output input size =
       lh512GenG Pos_hash_full_result_avx512_al_state_input fuel output input size := by
-  unfold Pos_linear_hash_avx512 lh512GenG
-  rw [lh512_step_generic]
+  delta lh512GenG
+  delta_prefix "Gen.LinearHashGen.Pos_linear_hash_avx512"
+  first
+  | (delta lh512StepG; gen_equiv)
+  | lh_countup (lh512StepG_inv Pos_hash_full_result_avx512_al_state_input input size), lh512StepG
 
 theorem lh512StepG_stop (P2 : Region → Region) (input state : Region) (size : BitVec 64) :
     lh512StepG P2 input size (state, 0#64) = some (false, (state, 0#64)) := rfl
